@@ -65,7 +65,7 @@ TStep ==
              /\ SameObs(e.obs, [sj EXCEPT !.cur = h, !.headH = h])
              /\ UNCHANGED <<S, P, O, W, eng>>
         [] OTHER -> UNCHANGED <<S, P, O, W, eng>>
-   /\ UNCHANGED <<todo, seg, phase, mode, rmode, cm, wrote, lastop, crashes, fp, refHead, pruned, hist>>
+   /\ UNCHANGED <<todo, seg, phase, mode, rmode, cm, wrote, lastop, moves, inmove, cw, crashes, fp, refHead, pruned, hist>>
 
 TInit == Init /\ l = 1 /\ eng = FALSE /\ P = S0 /\ O = <<>> /\ W = <<>> /\ TLCSet(1, 0)
 TSpec == TInit /\ [][TStep]_tvars
